@@ -25,8 +25,12 @@ import (
 	"os"
 	"os/exec"
 	"path/filepath"
+	"runtime/debug"
+	"runtime/pprof"
 	"sort"
 	"strings"
+	"sync/atomic"
+	"syscall"
 	"time"
 
 	"github.com/hashicorp/consul/agent/configentry"
@@ -257,15 +261,27 @@ func (p *mProxy) real() *structs.ProxyConfigEntry {
 
 // entries builds the real config entries; `valid` says whether each passed Normalize+Validate.
 func (m *mSet) entries(normalize bool) (out []structs.ConfigEntry, valid bool) {
+	return m.entriesV(normalize, true)
+}
+
+// entriesV: validate=false skips the (expensive: bexpr parsing) per-entry Validate on recompilations.
+func (m *mSet) entriesV(normalize, validate bool) (out []structs.ConfigEntry, valid bool) {
 	valid = true
 	add := func(e structs.ConfigEntry) {
-		if normalize {
+		if normalize && !validate {
+			// recompilation: Normalize's only effect the compiler can see, without the (slow) entry hash
+			if sd, ok := e.(*structs.ServiceConfigEntry); ok {
+				sd.Protocol = strings.ToLower(sd.Protocol)
+			}
+		} else if normalize {
 			if err := e.Normalize(); err != nil {
 				valid = false
 			}
 		}
-		if err := e.Validate(); err != nil {
-			valid = false
+		if validate {
+			if err := e.Validate(); err != nil {
+				valid = false
+			}
 		}
 		out = append(out, e)
 	}
@@ -413,38 +429,41 @@ type compileOut struct {
 	err error
 }
 
-// compileOnce runs the real compiler under a timeout; a panic becomes an error "panic: …".
+// compileOnce runs the real compiler inline; a panic becomes an error "panic: …". A watchdog goroutine
+// (see startWatchdog) ends the process when a call overstays `limit`: a runaway call cannot be
+// stopped from inside, so the supervising parent restarts the run with that case skipped.
 func compileOnce(c mCtx, set *configentry.DiscoveryChainSet, limit time.Duration) (out compileOut, timedOut bool) {
-	done := make(chan compileOut, 1)
-	go func() {
-		defer func() {
-			if p := recover(); p != nil {
-				done <- compileOut{nil, fmt.Errorf("panic: %v", p)}
-			}
-		}()
-		ch, err := discoverychain.Compile(discoverychain.CompileRequest{
-			ServiceName: c.svc, EvaluateInNamespace: c.ns, EvaluateInPartition: c.part, EvaluateInDatacenter: c.dc,
-			EvaluateInTrustDomain:  c.td,
-			OverrideMeshGateway:    structs.MeshGatewayConfig{Mode: structs.MeshGatewayMode(c.ovMgw)},
-			OverrideProtocol:       c.ovProto,
-			OverrideConnectTimeout: time.Duration(c.ovCT) * time.Second,
-			Entries:                set,
-		})
-		done <- compileOut{ch, err}
-	}()
-	select {
-	case o := <-done:
-		return o, false
-	case <-time.After(limit):
-		// The runaway goroutine cannot be stopped and would starve (or later kill) the process: under
-		// supervision, name the case and leave; the parent restarts the run with this case skipped.
-		if inflightPath != "" {
-			os.WriteFile(inflightPath, []byte("T\x01"+caseID+"\x01"+lastInflight), 0o644)
-			flushRun()
-			os.Exit(3)
+	deadline.Store(time.Now().Add(limit).UnixNano())
+	defer deadline.Store(0)
+	defer func() {
+		if p := recover(); p != nil {
+			out = compileOut{nil, fmt.Errorf("panic: %v", p)}
 		}
-		return compileOut{nil, fmt.Errorf("timeout")}, true
-	}
+	}()
+	ch, err := discoverychain.Compile(discoverychain.CompileRequest{
+		ServiceName: c.svc, EvaluateInNamespace: c.ns, EvaluateInPartition: c.part, EvaluateInDatacenter: c.dc,
+		EvaluateInTrustDomain:  c.td,
+		OverrideMeshGateway:    structs.MeshGatewayConfig{Mode: structs.MeshGatewayMode(c.ovMgw)},
+		OverrideProtocol:       c.ovProto,
+		OverrideConnectTimeout: time.Duration(c.ovCT) * time.Second,
+		Entries:                set,
+	})
+	return compileOut{ch, err}, false
+}
+
+var deadline atomic.Int64
+
+func startWatchdog() {
+	go func() {
+		for {
+			time.Sleep(250 * time.Millisecond)
+			if d := deadline.Load(); d != 0 && time.Now().UnixNano() > d {
+				writeInflight("T")
+				fmt.Fprintln(os.Stderr, "watchdog: call into the implementation did not return within", callLimit, "case", caseID)
+				os.Exit(3)
+			}
+		}
+	}()
 }
 
 // inflight records the case and operation about to run, so that the supervising parent process can
@@ -465,9 +484,39 @@ type skipRec struct {
 
 func inflight(op string) {
 	lastInflight = op
-	if inflightPath != "" {
-		os.WriteFile(inflightPath, []byte("C\x01"+caseID+"\x01"+op), 0o644)
+	writeInflight("C")
+}
+
+// the inflight record lives in a shared file mapping: no system call per operation, and the kernel
+// keeps the last content for the parent even if this process dies without warning
+var inflightMap []byte
+
+func openInflight(path string) {
+	inflightPath = path
+	f, err := os.OpenFile(path, os.O_RDWR|os.O_CREATE|os.O_TRUNC, 0o644)
+	if err != nil {
+		return
 	}
+	defer f.Close()
+	const size = 1 << 20
+	if f.Truncate(size) != nil {
+		return
+	}
+	if m, err := syscall.Mmap(int(f.Fd()), 0, size, syscall.PROT_READ|syscall.PROT_WRITE, syscall.MAP_SHARED); err == nil {
+		inflightMap = m
+	}
+}
+
+func writeInflight(how string) {
+	if inflightMap == nil {
+		return
+	}
+	rec := how + "\x01" + caseID + "\x01" + lastInflight
+	if len(rec) > len(inflightMap)-1 {
+		rec = rec[:len(inflightMap)-1]
+	}
+	n := copy(inflightMap, rec)
+	inflightMap[n] = 0
 }
 
 // skipCase reports a case that an earlier attempt showed to hang or crash, without running it.
@@ -489,27 +538,16 @@ func skipCase(run *hx.Run, id string) bool {
 	return true
 }
 
-// guarded runs a store operation (which compiles chains internally) under the same timeout.
-func guarded(f func() error) error {
-	done := make(chan error, 1)
-	go func() {
-		defer func() {
-			if p := recover(); p != nil {
-				done <- fmt.Errorf("panic: %v", p)
-			}
-		}()
-		done <- f()
-	}()
-	select {
-	case e := <-done:
-		return e
-	case <-time.After(callLimit):
-		if inflightPath != "" {
-			os.WriteFile(inflightPath, []byte("T\x01"+caseID+"\x01"+lastInflight), 0o644)
-			os.Exit(3)
+// guarded runs a store operation (which compiles chains internally) under the same watchdog.
+func guarded(f func() error) (err error) {
+	deadline.Store(time.Now().Add(callLimit).UnixNano())
+	defer deadline.Store(0)
+	defer func() {
+		if p := recover(); p != nil {
+			err = fmt.Errorf("panic: %v", p)
 		}
-		return fmt.Errorf("timeout")
-	}
+	}()
+	return f()
 }
 
 func newSet(entries []structs.ConfigEntry) *configentry.DiscoveryChainSet {
@@ -1054,7 +1092,7 @@ func (g *gen) ctx() mCtx {
 		c.ovMgw = hx.Pick(g.r, []string{"local", "remote", "none"})
 	}
 	if g.r.Chance(15) {
-		c.ovProto = hx.Pick(g.r, []string{"tcp", "http", "grpc", "http2"})
+		c.ovProto = hx.Pick(g.r, []string{"tcp", "http", "grpc", "http2", "tcp", "http", "HTTP"})
 	}
 	if g.r.Chance(15) {
 		c.ovCT = hx.Pick(g.r, []int{3, 5, 7})
@@ -1173,6 +1211,12 @@ func tagInput(run *hx.Run, m *mSet, c mCtx) {
 	}
 	if c.ns != "default" || c.part != "default" {
 		run.Tag("ctx:non-default-ns/partition")
+	}
+	for _, s := range m.services {
+		if strings.Contains(s.name, ".") {
+			run.Tag("in:dotted-service-name(id-collision)")
+			break
+		}
 	}
 }
 
@@ -1313,7 +1357,7 @@ func compileCase(run *hx.Run, r *hx.RNG, g *gen, repeats int) {
 		if i%2 == 1 {
 			mm = permuted(r, m)
 		}
-		es, _ := mm.entries(normalize)
+		es, _ := mm.entriesV(normalize, false)
 		o2, to := compileOnce(c, newSet(es), callLimit)
 		if to {
 			run.Violate("terminates:compile-timeout", "repeat compilation timed out", []string{op})
@@ -1417,7 +1461,7 @@ func witnesses(run *hx.Run) {
 			}
 			ref, _ := json.Marshal(out.ch)
 			for i := 0; i < 40; i++ {
-				es, _ := w.m.entries(true)
+				es, _ := w.m.entriesV(true, false)
 				o2, _ := compileOnce(w.c, newSet(es), callLimit)
 				b, _ := json.Marshal(o2.ch)
 				if string(b) != string(ref) {
@@ -1905,6 +1949,9 @@ func supervise() bool {
 			return true
 		}
 		rec, _ := os.ReadFile(ip)
+		if i := strings.IndexByte(string(rec), 0); i >= 0 {
+			rec = rec[:i]
+		}
 		if len(rec) == 0 {
 			break
 		}
@@ -1956,7 +2003,11 @@ func main() {
 	if supervise() {
 		return
 	}
-	inflightPath = os.Getenv("VERIF_C15_INFLIGHT")
+	if ip := os.Getenv("VERIF_C15_INFLIGHT"); ip != "" {
+		openInflight(ip)
+	}
+	startWatchdog()
+	debug.SetGCPercent(400)
 	if sp := os.Getenv("VERIF_C15_SKIP"); sp != "" {
 		if b, err := os.ReadFile(sp); err == nil {
 			loadSkips(string(b))
@@ -1965,9 +2016,21 @@ func main() {
 	run := hx.Start()
 	flushRun = func() {}
 	run.Rule = "discoverychain.Compile and Store.EnsureConfigEntry/DeleteConfigEntry vs CV.Chain.compile / ensureEntry / deleteEntry"
+	if pf := os.Getenv("VERIF_C15_PROF"); pf != "" {
+		f, _ := os.Create(pf)
+		pprof.StartCPUProfile(f)
+		defer pprof.StopCPUProfile()
+	}
+	t0 := time.Now()
+	lap := func(what string) {
+		if os.Getenv("VERIF_C15_TIMING") != "" {
+			fmt.Printf("timing: %s %.1fs\n", what, time.Since(t0).Seconds())
+		}
+		t0 = time.Now()
+	}
 	witnesses(run)
-	nCompile := run.Scale(900, 9000)
-	nStore := run.Scale(40, 350)
+	nCompile := run.Scale(1500, 20000)
+	nStore := run.Scale(80, 1200)
 	for i := 0; i < nCompile; i++ {
 		r := run.RNG.Fork(uint64(i))
 		caseID = fmt.Sprintf("c%d", i)
@@ -1980,12 +2043,25 @@ func main() {
 		}
 		compileCase(run, r, g, 8)
 	}
+	lap("compile cases")
 	for i := 0; i < nStore; i++ {
 		r := run.RNG.Fork(uint64(1_000_000 + i))
 		caseID = fmt.Sprintf("s%d", i)
 		g := &gen{r: r, names: svcNames[:3+r.Intn(2)], peers: false, wild: false, nested: r.Chance(40)}
 		storeSequence(run, r, g, 25)
 	}
-	exhaustive(run, run.Scale(40, 1))
+	lap("store sequences")
+	// the enumeration is the same for every seed: in the thorough tier (three derived seeds) do the
+	// complete one only under the primary seed, a sample under the others
+	primary := os.Getenv("VERIF_SEED")
+	if primary == "" {
+		primary = "1"
+	}
+	if run.Thorough() && fmt.Sprint(run.Seed) == primary {
+		exhaustive(run, 1)
+	} else {
+		exhaustive(run, 40)
+	}
+	lap("exhaustive")
 	run.Finish()
 }
